@@ -7,4 +7,5 @@ Extraction Language OCaml.
 Extraction "../ocaml/c11/model.ml" shard_of spec_shard_of shard_of_source_port ports_for_shard spec_ports
   accept_iter accept_draw prop_iter_ok prop_draw_ok parse_shard_info
   accept_conn accept_conns starvedb
-  connect_loop open_shard_aware tried_shard_aware env_busy open_many free_ports some_pivot_gives.
+  connect_loop open_shard_aware tried_shard_aware env_busy open_many free_ports some_pivot_gives
+  runs_for_shard shard_count_bounds.
